@@ -67,6 +67,7 @@ def connEvent (n : Nat) (s : State) (ev : String) : Option State :=
   else if ev == "cancel" then app [.cancelParent]
   else if ev == "eof" then app [.transportEOF]
   else if ev == "rerr" then app [.transportErr]
+  else if ev == "rtmo" then app [.transportErr]   -- a read timeout ends the transport like any other read error
   else if ev == "brk" then app [.breakWrites]
   else if ev == "drain0" then app [.setDrain false]
   else if ev == "drain1" then app [.setDrain true]
